@@ -1,6 +1,6 @@
 """C20 - Linear layer computes the clipped affine function."""
 import numpy as np
-from common import Case, cq, cql, cqm, clist, cnat, copt
+from common import Case, cq, cql, cqm, clist, cnat, copt, czl, cnatpairs
 import tfimpl
 
 ID = "C20"
@@ -9,11 +9,23 @@ FUNCTIONAL = True  # the property states output == formula; a disagreement is a 
 RULE = ("random Linear layers (1-5 inputs, 1-3 units, every subset of lower/upper input bounds, bias on/off, "
         "dyadic kernels; half of them sign-feasible for their monotonicities) evaluated on a base point drawn "
         "inside/on/outside the bounds plus points moved along one constrained input; the Coq model evaluates "
-        "the same points. Non-trivial = the layer has >= 2 inputs or a bound that actually clips a point; "
-        "distinct = distinct (config, kernel, points).")
-TRUSTED = ["model: Model/LinearEval.v (hand-written from linear_layer.py Linear.call/build); "
-           "tie: Linear layer built in float64 with assigned kernel/bias, outputs compared in Coq"]
-LIMITS = ["float rounding of the matmul/reduce_sum is outside the model (tolerance 1e-9)"]
+        "the same points. A third of the cases are CONSTRAINED layers: random monotonicities, acyclic "
+        "monotonic/range dominance graphs, bounds, normalization none/1/2 (a share all-increasing with order 1), "
+        "raw kernels random/ties/zeros/all-negative/far; the real layer.kernel.constraint is applied to the raw "
+        "kernel, then the layer is called on probe points (moves along constrained inputs, +d steps of both inputs "
+        "of a monotonic dominance pair, full-range sweeps of both inputs of a range dominance pair); the Coq model "
+        "projects the raw kernel itself and evaluates Linear.call; monotonicity, both dominance effects and the "
+        "weighted-average range are evaluated on the real outputs. Non-trivial = the layer has >= 2 inputs or a "
+        "bound that actually clips a point; distinct = distinct (config, kernel, points).")
+TRUSTED = ["model: Model/LinearEval.v + Model/LinearLayer.v (hand-written from linear_layer.py Linear.call/build), "
+           "Model/LinearProject.v (linear_lib.project, property C06); square root of the order-2 norm is an oracle "
+           "in the theorems and a truncated Newton iteration when the model is executed; "
+           "tie: Linear layer built in float64 with assigned kernel/bias (constrained cases: after "
+           "layer.kernel.assign(layer.kernel.constraint(layer.kernel))), constrained kernel and outputs compared in Coq"]
+LIMITS = ["float rounding of the matmul/reduce_sum and of the projection is outside the model (tolerance 1e-9)",
+          "weighted average: a numerically-zero projected column (L1 norm < 1e-8) is outside the guarantee "
+          "(guard of C20_projected_weighted_average, refuted witness C20_projected_weighted_average_zero_refuted, "
+          "known finding D32); such columns are generated and compared with the model but not held to the range"]
 
 
 def gen_descs(ctx):
@@ -62,13 +74,227 @@ def gen_descs(ctx):
         r[i] += d
       pts.append(p)
     out.append(dict(n=n, units=units, monos=monos, lo=lo, hi=hi, K=K, bias=bias, pts=pts, feasible=feasible))
+  for _ in range(ctx.n(120, 2000)):
+    out.append(gen_constrained(rng))
   return out
+
+
+def rand_dag(rng, nodes, max_pairs):
+  """Random acyclic pair list (a, b) with a before b in a hidden order."""
+  nodes = list(nodes)
+  order = list(nodes)
+  rng.shuffle(order)
+  pos = {v: k for k, v in enumerate(order)}
+  pairs = []
+  for _ in range(rng.randint(1, max_pairs)):
+    a, b = rng.sample(nodes, 2)
+    if pos[a] > pos[b]:
+      a, b = b, a
+    pairs.append([a, b])
+  return pairs
+
+
+def gen_constrained(rng):
+  """A configured layer whose real kernel constraint is applied before the call."""
+  n = rng.randint(2, 6)
+  units = rng.choice([1, 1, 2, 3])
+  wavg = rng.random() < 0.3
+  monos = [1] * n if wavg else [rng.choice([-1, 0, 1, 1]) for _ in range(n)]
+  inc = [i for i in range(n) if monos[i] == 1]
+  dec = [i for i in range(n) if monos[i] == -1]
+  mode = rng.choice(["plain", "mdom", "rdom", "both", "mdom", "rdom"])
+  mdom, rdom, used = [], [], set()
+  if mode in ("mdom", "both") and len(inc) >= 2:
+    k = rng.randint(2, min(len(inc), 4))
+    sub = rng.sample(inc, k)
+    mdom = [[b, a] for a, b in rand_dag(rng, sub, 2 * k)]  # (dominant, weak)
+    used = set(x for p in mdom for x in p)
+  lo, hi = [None] * n, [None] * n
+  for i in range(n):
+    c = rng.random()
+    a = tfimpl.dy(rng, -4, 4)
+    if c < 0.3:
+      lo[i], hi[i] = a, a + rng.choice([0.5, 1.0, 2.0, 3.0])
+    elif c < 0.35:
+      lo[i], hi[i] = a, a  # zero width
+    elif c < 0.45:
+      lo[i] = a
+    elif c < 0.55:
+      hi[i] = a
+  if mode in ("rdom", "both"):
+    pool = [i for i in (inc if rng.random() < 0.6 or len(dec) < 2 else dec) if i not in used]
+    if len(pool) >= 2:
+      k = rng.randint(2, min(len(pool), 4))
+      sub = rng.sample(pool, k)
+      for i in sub:
+        a = tfimpl.dy(rng, -4, 4)
+        lo[i], hi[i] = a, a + rng.choice([0.5, 1.0, 2.0, 3.0])
+      rdom = [[b, a] for a, b in rand_dag(rng, sub, 2 * k)]
+  norm = 1 if wavg else rng.choice([None, None, 1, 2])
+  wclass = rng.choice(["random", "random", "random", "ties", "zeros", "allneg", "far", "onezero"])
+  W = []
+  for i in range(n):
+    row = []
+    for u in range(units):
+      if wclass == "zeros":
+        v = 0.0
+      elif wclass == "ties":
+        v = float(rng.choice([-1, 0, 1, 1, 2]))
+      elif wclass == "far":
+        v = tfimpl.dy(rng, -64, 64)
+      elif wclass == "allneg":
+        v = -abs(tfimpl.dy(rng)) - 0.125
+      elif wclass == "onezero" and u == 0:
+        v = -abs(tfimpl.dy(rng)) if monos[i] == 1 else (abs(tfimpl.dy(rng)) if monos[i] == -1 else 0.0)
+      else:
+        v = tfimpl.dy(rng)
+      row.append(v)
+    W.append(row)
+  use_bias = rng.random() < (0.3 if wavg else 0.6)
+  bias = [tfimpl.dy(rng) for _ in range(units)] if use_bias else None
+
+  def coord(i):
+    c = rng.random()
+    if lo[i] is not None and c < 0.15: return lo[i]
+    if hi[i] is not None and c < 0.3: return hi[i]
+    return tfimpl.dy(rng, -6, 6)
+  same_rows = rng.random() < 0.5
+  row0 = [coord(i) for i in range(n)]
+  base = [list(row0) if same_rows else [coord(i) for i in range(n)] for _ in range(units)]
+  md_pair = rng.choice(mdom) if mdom else None
+  md_d = rng.choice([0.125, 0.5, 1.0, 3.0])
+  if md_pair is not None and rng.random() < 0.7:
+    # put the dominant input where the step stays inside its bounds, when there is room
+    dom = md_pair[0]
+    for r in base:
+      l = lo[dom] if lo[dom] is not None else -6.0
+      h = hi[dom] if hi[dom] is not None else 6.0
+      if h - l >= md_d:
+        r[dom] = l + rng.choice([0.0, (h - l - md_d) / 2.0, h - l - md_d])
+  pts = [base]
+  probes = []
+
+  def moved(i, fn):
+    p = [list(r) for r in base]
+    for r in p:
+      r[i] = fn(r[i])
+    pts.append(p)
+    return len(pts) - 1
+  cons = [i for i in range(n) if monos[i] != 0]
+  for _ in range(2):
+    if cons:
+      i = rng.choice(cons)
+      d = rng.choice([0.125, 1.0, 5.0])
+      probes.append(dict(type="mono", i=i, a=0, b=moved(i, lambda v, d=d: v + d)))
+  if md_pair is not None:
+    dom, weak = md_pair
+    probes.append(dict(type="mdom", dom=dom, weak=weak, d=md_d,
+                       pd=moved(dom, lambda v: v + md_d), pw=moved(weak, lambda v: v + md_d)))
+  if rdom:
+    dom, weak = rng.choice(rdom)
+    probes.append(dict(type="rdom", dom=dom, weak=weak,
+                       dl=moved(dom, lambda v: lo[dom]), dh=moved(dom, lambda v: hi[dom]),
+                       wl=moved(weak, lambda v: lo[weak]), wh=moved(weak, lambda v: hi[weak])))
+  return dict(kind="proj", n=n, units=units, monos=monos, mdom=mdom, rdom=rdom, lo=lo, hi=hi, norm=norm,
+              W=W, wclass=wclass, bias=bias, pts=pts, probes=probes, wavg=wavg)
+
+
+def _clip(v, l, h):
+  if h is not None: v = min(v, h)
+  if l is not None: v = max(v, l)
+  return v
+
+
+def eval_constrained(tf, tfl, d):
+  """Runs the real layer with its real constraint applied; returns a Case."""
+  n, units = d["n"], d["units"]
+  any_lo = any(v is not None for v in d["lo"])
+  any_hi = any(v is not None for v in d["hi"])
+  layer = tfl.layers.Linear(
+      num_input_dims=n, units=units, monotonicities=d["monos"],
+      monotonic_dominances=[tuple(p) for p in d["mdom"]] or None,
+      range_dominances=[tuple(p) for p in d["rdom"]] or None,
+      input_min=d["lo"] if any_lo else None, input_max=d["hi"] if any_hi else None,
+      use_bias=d["bias"] is not None, normalization_order=d["norm"], dtype="float64")
+  layer.build((None, n) if units == 1 else (None, units, n))
+  layer.kernel.assign(np.array(d["W"], dtype=np.float64))
+  if layer.kernel.constraint is not None:
+    layer.kernel.assign(layer.kernel.constraint(layer.kernel))
+  if d["bias"] is not None:
+    layer.bias.assign(np.float64(d["bias"][0]) if units == 1 else np.array(d["bias"], dtype=np.float64))
+  kern = [[float(v) for v in row] for row in layer.kernel.numpy()]
+  x = np.array(d["pts"], dtype=np.float64)
+  if units == 1:
+    x = x[:, 0, :]
+  y = layer(tf.constant(x)).numpy()
+  outs = [[float(v) for v in row] for row in y]
+  R = np.array(kern)
+  scale = max(1.0, float(np.abs(y).max()))
+  eps = 1e-9 * scale
+  fail = None
+  pts = d["pts"]
+  lo, hi = d["lo"], d["hi"]
+  checked = set()
+  for pr in d["probes"]:
+    for u in range(units):
+      if pr["type"] == "mono":
+        i = pr["i"]
+        diff = outs[pr["b"]][u] - outs[pr["a"]][u]
+        if (d["monos"][i] == 1 and diff < -eps) or (d["monos"][i] == -1 and diff > eps):
+          fail = "constrained layer: output of unit %d not monotone in input %d (monotonicity %d): %r -> %r" % (
+              u, i, d["monos"][i], outs[pr["a"]][u], outs[pr["b"]][u])
+        checked.add("mono")
+      elif pr["type"] == "mdom":
+        dom, dd = pr["dom"], pr["d"]
+        xd = pts[0][u][dom]
+        if _clip(xd, lo[dom], hi[dom]) == xd and _clip(xd + dd, lo[dom], hi[dom]) == xd + dd:
+          ed = outs[pr["pd"]][u] - outs[0][u]
+          ew = outs[pr["pw"]][u] - outs[0][u]
+          if ew > ed + eps:
+            fail = ("constrained layer: unit %d changes more along weak input %d (%r) than along dominant "
+                    "input %d (%r) for the step %r" % (u, pr["weak"], ew, dom, ed, dd))
+          checked.add("mdom")
+      elif pr["type"] == "rdom":
+        ed = outs[pr["dh"]][u] - outs[pr["dl"]][u]
+        ew = outs[pr["wh"]][u] - outs[pr["wl"]][u]
+        sg = d["monos"][pr["dom"]]
+        if sg * ew > sg * ed + eps or sg * ew < -eps or sg * ed < -eps:
+          fail = ("constrained layer: unit %d changes more across the range of weak input %d (%r) than across "
+                  "the range of dominant input %d (%r)" % (u, pr["weak"], ew, pr["dom"], ed))
+        checked.add("rdom")
+  zero_col = False
+  if d["wavg"]:
+    for u in range(units):
+      s = float(np.abs(R[:, u]).sum())
+      if s < 1e-6:
+        zero_col = True   # outside the guard (numerically zero column is returned as it is)
+        continue
+      b = d["bias"][u] if d["bias"] is not None else 0.0
+      for p, o in zip(pts, outs):
+        cl = [_clip(p[u][i], lo[i], hi[i]) for i in range(n)]
+        if not (min(cl) - eps <= o[u] - b <= max(cl) + eps):
+          fail = ("constrained all-increasing layer with normalization_order=1: unit %d output minus bias %r is "
+                  "not between min %r and max %r of the clipped inputs" % (u, o[u] - b, min(cl), max(cl)))
+      checked.add("wavg")
+  cfg = "(mkLin %s %s %s %s %s %s)" % (
+      czl(d["monos"]), cnatpairs(d["mdom"]), cnatpairs(d["rdom"]),
+      clist([copt(v) for v in d["lo"]]), clist([copt(v) for v in d["hi"]]), cnat(d["norm"] or 0))
+  coq = "mkP %s %s %s %s %s %s %s" % (cfg, cnat(units), cqm(d["W"]), copt(d["bias"], cql),
+                                      clist([cqm(p) for p in pts]), cqm(kern), cqm(outs))
+  klass = "proj_u%d_%s%s%s%s_%s%s" % (units, "m" if d["mdom"] else "", "r" if d["rdom"] else "",
+                                      "n%d" % d["norm"] if d["norm"] else "", "_wavg" if d["wavg"] else "",
+                                      "+".join(sorted(checked)) or "none", "_zerocol" if zero_col else "")
+  return Case(d, coq=coq, pred_fail=fail, nontrivial=True, klass=klass,
+              info={"impl_outputs": outs, "impl_constrained_kernel": kern})
 
 
 def eval_cases(ctx, descs):
   tf, tfl = tfimpl.tfl()
   cases = []
   for d in descs:
+    if d.get("kind") == "proj":
+      cases.append(eval_constrained(tf, tfl, d))
+      continue
     n, units = d["n"], d["units"]
     any_lo = any(v is not None for v in d["lo"])
     any_hi = any(v is not None for v in d["hi"])
